@@ -2,105 +2,9 @@
     exact host beats wildcard, longer literal host suffix first, host-less last,
     longest path within a host; and their composition [lookup_meets_spec_on_domain]. *)
 From Coq Require Import String List NArith Bool Lia PeanoNat Sorting.Sorted.
-From Fabio Require Import Lib.Bytes Model.Glob Model.Lookup Proofs.Lookup.
+From Fabio Require Import Lib.Bytes Model.Glob Model.Lookup Proofs.LookupGlob Proofs.Lookup.
 Import ListNotations.
 Local Open Scope N_scope.
-
-(* ------------------------------------------------------------------ *)
-(** * Glob semantics *)
-Lemma gmatch_star_unfold p s :
-  gmatch (TStar :: p) s
-  = gmatch p s || match s with [] => false | _ :: s' => gmatch (TStar :: p) s' end.
-Proof. destruct s; reflexivity. Qed.
-
-Lemma gmatch_app p1 : forall p2 s,
-  gmatch (p1 ++ p2) s = true ->
-  exists s1 s2, s = s1 ++ s2 /\ gmatch p1 s1 = true /\ gmatch p2 s2 = true.
-Proof.
-  induction p1 as [|t p1 IH]; intros p2 s H.
-  - exists [], s. repeat split. exact H.
-  - rewrite <- app_comm_cons in H. destruct t as [c| |].
-    + destruct s as [|x s]; cbn [gmatch] in H; [discriminate|].
-      apply andb_true_iff in H as [Hx H]. destruct (IH _ _ H) as (s1 & s2 & -> & H1 & H2).
-      exists (x :: s1), s2. repeat split; [|exact H2]. cbn [gmatch]. now rewrite Hx, H1.
-    + destruct s as [|x s]; cbn [gmatch] in H; [discriminate|].
-      destruct (IH _ _ H) as (s1 & s2 & -> & H1 & H2).
-      exists (x :: s1), s2. repeat split; [|exact H2]. cbn [gmatch]. exact H1.
-    + induction s as [|x s IHs]; rewrite gmatch_star_unfold in H;
-        apply orb_true_iff in H as [H | H]; try discriminate.
-      * destruct (IH _ _ H) as (s1 & s2 & E & H1 & H2).
-        exists s1, s2. repeat split; [exact E | | exact H2].
-        rewrite gmatch_star_unfold, H1. reflexivity.
-      * destruct (IH _ _ H) as (s1 & s2 & E & H1 & H2).
-        exists s1, s2. repeat split; [exact E | | exact H2].
-        rewrite gmatch_star_unfold, H1. reflexivity.
-      * destruct (IHs H) as (s1 & s2 & -> & H1 & H2).
-        exists (x :: s1), s2. repeat split; [|exact H2].
-        rewrite gmatch_star_unfold, H1. apply orb_true_r.
-Qed.
-
-Lemma tok_of_lit c : is_meta c = false -> tok_of c = TLit c.
-Proof.
-  unfold is_meta, tok_of. intros H. apply orb_false_iff in H as [-> ->]. reflexivity.
-Qed.
-
-(* a pattern without metacharacters matches exactly itself *)
-Lemma gmatch_lits k : forall s,
-  has_meta k = false -> gmatch (parse_glob k) s = true -> k = s.
-Proof.
-  unfold has_meta, parse_glob. induction k as [|c k IH]; intros s Hm H.
-  - destruct s; [reflexivity | discriminate].
-  - cbn [existsb] in Hm. apply orb_false_iff in Hm as [Hc Hm].
-    cbn [map] in H. rewrite (tok_of_lit c Hc) in H.
-    destruct s as [|x s]; cbn [gmatch] in H; [discriminate|].
-    apply andb_true_iff in H as [Hx H]. apply N.eqb_eq in Hx. subst x.
-    f_equal. now apply IH.
-Qed.
-
-Lemma existsb_rev {A} (f : A -> bool) l : existsb f (rev l) = existsb f l.
-Proof.
-  destruct (existsb f l) eqn:E.
-  - apply existsb_exists in E as [x [Hx Hc]]. apply existsb_exists. exists x.
-    split; [now apply in_rev in Hx | exact Hc].
-  - destruct (existsb f (rev l)) eqn:E'; [|reflexivity].
-    apply existsb_exists in E' as [x [Hx Hc]]. apply in_rev in Hx.
-    rewrite (existsb_false _ _ _ E Hx) in Hc. discriminate.
-Qed.
-
-(* r = its literal head ++ (nothing | a metacharacter and the rest) *)
-Lemma take_lits_split r :
-  exists rest, r = take_lits r ++ rest /\ has_meta (take_lits r) = false /\
-               (rest = [] \/ exists m rest', rest = m :: rest' /\ is_meta m = true).
-Proof.
-  unfold has_meta. induction r as [|c r IH]; cbn [take_lits].
-  - exists []. repeat split. now left.
-  - destruct (is_meta c) eqn:E.
-    + exists (c :: r). repeat split. right. now exists c, r.
-    + destruct IH as (rest & E1 & E2 & E3). exists rest. repeat split.
-      * cbn [app]. now rewrite <- E1.
-      * cbn [existsb]. now rewrite E, E2.
-      * exact E3.
-Qed.
-
-Lemma has_meta_lit_tail k : has_meta (lit_tail k) = false.
-Proof.
-  unfold lit_tail, has_meta. rewrite existsb_rev.
-  destruct (take_lits_split (rev k)) as (rest & _ & H & _). exact H.
-Qed.
-
-(* whatever a pattern matches ends with the pattern's literal tail *)
-Lemma tail_suffix k s : glob_match k s = true -> exists x, s = x ++ lit_tail k.
-Proof.
-  intros H. destruct (take_lits_split (rev k)) as (rest & E & _ & _).
-  assert (Ek : k = rev rest ++ lit_tail k).
-  { unfold lit_tail. rewrite <- rev_app_distr, <- E. symmetry. apply rev_involutive. }
-  unfold glob_match in H. rewrite Ek in H. unfold parse_glob in H. rewrite map_app in H.
-  apply gmatch_app in H as (s1 & s2 & -> & _ & H2).
-  exists s1. f_equal. symmetry. apply gmatch_lits; [apply has_meta_lit_tail | exact H2].
-Qed.
-
-Lemma glob_exact k s : has_meta k = false -> glob_match k s = true -> k = s.
-Proof. intros Hm H. now apply gmatch_lits. Qed.
 
 (* ------------------------------------------------------------------ *)
 (** * Byte order of strings with a common prefix *)
